@@ -109,13 +109,17 @@ def calcBaseFee (p : Header) : Option Nat :=
     let y := p.baseFee * (target - p.gasUsed) / target
     some (p.baseFee - y / 8)       -- BigMax(base - delta, 0): truncated subtraction
 
-/-- `makeDifficultyCalculator(9700000)(time, parent)` -/
-def calcDifficulty (time : Nat) (p : Header) : Int :=
+/-- the adjustment factor of the difficulty rule: `max((2 if parent has uncles else 1) − Δt/9, −99)` — the uncle term is
+    INSIDE the maximum -/
+def diffFactor (time : Nat) (p : Header) : Int :=
   let x0 : Int := ((time : Int) - (p.time : Int)) / 9
   let x1 : Int := (if p.uncleEmpty then 1 else 2) - x0
-  let x2 : Int := if x1 < -99 then -99 else x1
+  if x1 < -99 then -99 else x1
+
+/-- `makeDifficultyCalculator(9700000)(time, parent)` -/
+def calcDifficulty (time : Nat) (p : Header) : Int :=
   let y : Int := (p.difficulty : Int) / 2048
-  let x3 : Int := (p.difficulty : Int) + y * x2
+  let x3 : Int := (p.difficulty : Int) + y * diffFactor time p
   let x4 : Int := if x3 < 131072 then 131072 else x3
   let fake : Nat := if p.number ≥ 9699999 then p.number - 9699999 else 0
   let period := fake / 100000
